@@ -129,6 +129,9 @@ def classify_crash(stderr):
         kind = 'assert'
     frame, ffile = '', ''
     for m in re.finditer(r'#\d+ 0x[0-9a-f]+ in (.+?) (/[^\s:]+):(\d+)', stderr):
+        if m.group(2).startswith(os.path.join(ROOT, 'sim') + '/') and 'world.hpp' not in m.group(2):
+            # the innermost source frame is harness code: a harness bug, never a verdict
+            return 'harness', re.sub(r'<.*', '', m.group(1)).split('(')[0], os.path.basename(m.group(2))
         if '/include/trompeloeil/' in m.group(2):
             fn = re.sub(r'<.*', '', m.group(1))
             frame = fn.split('(')[0]
@@ -196,6 +199,9 @@ def run_chunk(binary, profile, faults, base, count, outdir, deny, samples, mode=
             events.append(('H', cur, 'worker died (rc=%d) outside a run: %s' % (p.returncode, p.stderr[-2000:])))
             break
         kind, frame, ffile = classify_crash(p.stderr)
+        if kind == 'harness':
+            events.append(('H', inflight, 'sanitizer error inside the harness at %s (%s), seed %d: %s' % (frame, ffile, inflight, p.stderr[-1500:])))
+            break
         if p.returncode == 78 and kind == 'crash':
             kind = 'terminate'; frame = 'during ' + term_op; ffile = 'terminate'
         events.append(('C', inflight, kind, frame, ffile, p.stderr[-4000:]))
